@@ -477,7 +477,7 @@ fn components(engine: &str) -> Value {
         }),
         "e5" => json!({
             "real": ["xs::handlers::serve / Handler / EngineWorker", "xs::generators::serve", "xs::commands::serve", "nushell engine (nu-* 0.103) evaluating generated scripts", "nu custom commands .append/.cat/.head/.cas/.get/.remove", "xs::store::Store, cacache"],
-            "stubbed": ["scheduling of engine-worker, generator-worker, command-call, history and gc threads (sync points, seeded chooser)", "clock (tokio paused clock + simulated wall clock) and ids", "the operator / clients (harness)", "restart (byte copy of the directory + new runtime + new serve loops)"]
+            "stubbed": ["scheduling of engine-worker, generator-worker, command-call, history and gc threads (sync points, seeded chooser)", "clock (tokio paused clock + simulated wall clock) and ids", "the operator / clients (harness)", "restart (byte copy of the directory + new runtime + new serve loops)", "injected faults: the content store refusing writes while a trigger / call is handled (cacache's temp directory replaced by a file), a command worker thread that panics after the script's own append, crash restarts a few steps into pending work"]
         }),
         "e2" => json!({
             "real": ["xs::store::Store::append / read / read_sync on real OS threads and tokio tasks", "tokio broadcast + mpsc channels, current_thread runtime (stepped)", "fjall write path"],
@@ -510,7 +510,8 @@ fn assumptions(engine: &str) -> Value {
         "e5" => json!([
             "sampling, not proof: verdict covers the histories and schedules explored",
             "inside one tokio step the serve loops and handler tasks run in tokio's FIFO order; OS threads are interleaved at their sync points",
-            "appends made by tokio tasks are atomic steps (they run on the scheduler thread)"
+            "appends made by tokio tasks are atomic steps (they run on the scheduler thread)",
+            "the store's collector runs only where a history asks for it (GcDrain before some restarts in C17)"
         ]),
         "e2" => json!([
             "sampling, not proof: verdict covers the schedules explored",
